@@ -16,8 +16,13 @@ VERIF = os.path.dirname(os.path.dirname(os.path.abspath(__file__)))
 
 def one(name, slots):
     prop = name[:3]
-    slot = slots.get()
     t0 = time.time()
+    chk = subprocess.run(["git", "-C", os.environ.get("VERIF_REPO", "/repo"), "apply", "--check", os.path.join(VERIF, "harmless", name + ".diff")],
+                         stdout=subprocess.PIPE, stderr=subprocess.STDOUT)
+    if chk.returncode != 0:
+        # the code the rewrite touched was changed by a later repair in /repo
+        return {"name": name, "property": prop, "verdict": "does-not-apply", "wall_s": 0, "tail": ""}
+    slot = slots.get()
     try:
         env = dict(os.environ, MUTSLOT=str(slot), TAILN="60", VERIF_ESCALATE="0")
         p = subprocess.run([os.path.join(VERIF, "vlib", "mutrig.sh"), prop, os.path.join(VERIF, "harmless", name + ".diff"), "quick"],
@@ -57,6 +62,7 @@ def main():
     json.dump(res, open(os.path.join(VERIF, "out", "harmsweep.json"), "w"), indent=1)
     print("%d rewrites: %d quiet, %d proof/tie only, %d FALSE ALARMS" % (len(res), sum(r["verdict"] == "quiet" for r in res),
           sum(r["verdict"] == "no-failing-input-found" for r in res), sum(r["verdict"] in ("FALSE-ALARM", "ERROR") for r in res)))
+    print("(%d no longer apply: the code was changed by a later repair)" % sum(r["verdict"] == "does-not-apply" for r in res))
 
 
 if __name__ == "__main__":
